@@ -23,7 +23,7 @@ SITE_KIND = {
     "clt_append": "L", "clt_ping": "ping", "sch_spawn": "L", "fs_assert": "L", "fs_append": "L", "fs_appendleft": "L",
     "bi_set": "Event.set", "cy_ping": "ping", "se_create": "L", "se_acqIn": "Lock.acquire", "sx_relOut": "Lock.release",
     "run_len": "L", "idle_wait": "Event.wait", "idle_clear": "Event.clear", "cyc_pop": "L", "cyc_append": "L",
-    "st_contains": "L", "sy_relIn": "Lock.release", "sy_acqOut": "Lock.acquire", "rs_put": "Queue.put",
+    "st_contains": "L", "sch_contains": "L", "sy_relIn": "Lock.release", "sy_acqOut": "Lock.acquire", "rs_put": "Queue.put",
     "clt_pong": "pongAll", "clt_pop": "L", "clt_call": "cb", "sel_select": "select", "sel_pong": "pongAll",
     "sel_empty": "Queue.empty", "sel_get": "Queue.get",
 }
@@ -140,6 +140,7 @@ class C07(Check):
                 {"users": [[0]], "progs": [[S0, S0], [S0]]},
                 {"users": [[1, 0]], "progs": [[SE, CL, SX], [S0, CL]]},
                 {"users": [[0], [1]], "progs": [[SE, SE, SX, SX, SE, SX], [S0, {"o": "schedule", "t": 1}], [CL]]},
+                {"users": [[3, 1, 3, 0], [2, 0]], "progs": [[S0], [{"o": "schedule", "t": 1}, S0]]},     # tasks waking each other from their slices
             ]
             for b in base:
                 for seed in range(3):
@@ -154,7 +155,15 @@ class C07(Check):
     def gen_threads_case(self, rng, big=False):
         nf = rng.choice([1, 2, 2, 3]) if not big else rng.choice([3, 4, 5])
         nu = rng.choice([0, 1, 1, 2])
-        users = [[rng.randrange(2) for _ in range(rng.randrange(3))] for _ in range(nu)]
+        users = []
+        for u in range(nu):
+            prog = []
+            for _ in range(rng.randrange(4)):
+                if nu > 1 and rng.random() < 0.35:
+                    prog.append(2 + rng.choice([v for v in range(nu) if v != u]))      # schedule(another user task) inside the slice
+                else:
+                    prog.append(rng.randrange(2))
+            users.append(prog)
         progs = []
         for _ in range(nf):
             p, depth = [], 0
@@ -301,12 +310,19 @@ class C07(Check):
                     ctl.yield_point(("user_end", self.idx))
                     if insec: st.insec_violations.append(["user", self.idx, sorted(insec)])
                 def run(self):
-                    for y in self.prog:
-                        self.body()
-                        yield (0 if y else False)
+                    # program items: 0 = `yield False`, 1 = `yield 0`, 2+v = `scheduler.schedule(users[v])` inside the slice
+                    i, prog = 0, self.prog
                     while True:
                         self.body()
-                        yield False
+                        while i < len(prog) and prog[i] >= 2:
+                            v = prog[i] - 2; i += 1
+                            st.wake_marks.append([v, len(st.slices)])
+                            sched.schedule(users[v])
+                        if i < len(prog):
+                            y = prog[i]; i += 1
+                            yield (0 if y == 1 else False)
+                        else:
+                            yield False
             users = [UserTask(i, p) for i, p in enumerate(case["users"])]
             st.users = users
 
